@@ -21,7 +21,7 @@ use crate::{
     util::{RecordingHasher, StaticArena},
 };
 
-const RULE: &str = "cases are triples of keys decoded from a choice sequence: a base (name, label list of length 0..10 over a tiny alphabet so repeats collide) and two keys derived from it by re-construction through another path, label permutation, adjacent swap, single-field edit or independent draw; each key is built through one of 9 construction paths. Non-trivial = at least two of the three keys have >= 2 labels and either share a label name inside one key or are model-equal to another key of the triple. Distinct = distinct decoded triples (hash of the decoded case). Race lane: 2-3 threads make the first get_hash()/clone calls on one shared static key under a generated schedule; non-trivial = a context switch happened between the two stores of get_hash.";
+const RULE: &str = "cases are triples of keys decoded from a choice sequence: a base (name, label list of length 0..10 over a tiny alphabet so repeats collide) and two keys derived from it by re-construction through another path, label permutation, adjacent swap, single-field edit or independent draw; each key is built through one of 10 construction paths (one of them takes static parts as prefix views of shared buffers, so distinct strings may share an address). Non-trivial = at least two of the three keys have >= 2 labels and either share a label name inside one key or are model-equal to another key of the triple. Distinct = distinct decoded triples (hash of the decoded case). Race lane: 2-3 threads make the first get_hash()/clone calls on one shared static key under a generated schedule; non-trivial = a context switch happened between the two stores of get_hash.";
 
 const NAMES: [&str; 6] = ["", "a", "b", "ab", "é", "A"];
 const LKEYS: [&str; 6] = ["a", "b", "c", "", "é", "ab"];
@@ -44,6 +44,9 @@ pub enum Path {
     CloneOfStatic,
     TupleSlice,
     CloneOfOwned,
+    /// static parts taken as prefix views of shared static buffers ("a" is `&"ab"[..1]`, "" is
+    /// `&"ab"[..0]`), so distinct strings can start at the same address
+    StaticAliased,
 }
 
 #[derive(Debug, Clone)]
@@ -76,7 +79,7 @@ fn dec_spec(src: &mut Source) -> Spec {
 }
 
 fn dec_path(src: &mut Source, nlabels: usize) -> Path {
-    match src.below(9) {
+    match src.below(10) {
         0 => Path::PartsOwned,
         1 => Path::PartsStatic,
         2 => Path::PartsArc,
@@ -85,6 +88,7 @@ fn dec_path(src: &mut Source, nlabels: usize) -> Path {
         5 => Path::Extra(src.below(nlabels + 1)),
         6 => Path::CloneOfStatic,
         7 => Path::TupleSlice,
+        8 => Path::StaticAliased,
         _ => Path::CloneOfOwned,
     }
 }
@@ -154,6 +158,17 @@ fn owned_labels(spec: &Spec) -> Vec<Label> {
     spec.labels.iter().map(|(k, v)| Label::new(k.clone(), v.clone())).collect()
 }
 
+/// A `&'static str` equal to `s` that is a prefix view of a shared static buffer when one exists.
+fn aliased(s: &str, arena: &mut StaticArena) -> &'static str {
+    const BASES: [&str; 10] = ["ab", "A", "é", "b", "1", "2", "x", "c", "mm", "requests.total"];
+    for b in BASES {
+        if b.starts_with(s) {
+            return &b[..s.len()];
+        }
+    }
+    arena.str(s)
+}
+
 pub fn build(spec: &Spec, path: Path, arena: &mut StaticArena) -> Key {
     let static_labels = |arena: &mut StaticArena| -> &'static [Label] {
         let v: Vec<Label> = spec.labels.iter().map(|(k, v)| Label::from_static_parts(arena.str(k), arena.str(v))).collect();
@@ -195,6 +210,11 @@ pub fn build(spec: &Spec, path: Path, arena: &mut StaticArena) -> Key {
         Path::TupleSlice => {
             let pairs: Vec<(String, String)> = spec.labels.clone();
             Key::from((spec.name.clone(), &pairs[..]))
+        }
+        Path::StaticAliased => {
+            let v: Vec<Label> = spec.labels.iter().map(|(k, v)| Label::from_static_parts(aliased(k, arena), aliased(v, arena))).collect();
+            let l = arena.labels(v);
+            Key::from_static_parts(aliased(&spec.name, arena), l)
         }
         Path::CloneOfOwned => {
             let k = Key::from_parts(spec.name.clone(), owned_labels(spec));
